@@ -753,6 +753,9 @@ nodesLoop:
 			iteaName := tc.compilation.generateIteaName()
 
 			iteaDeclaration, statement := tc.explodeUsingStatement(node, iteaName)
+			uc := tc.compilation.iteaToUsingCheck[iteaName]
+			uc.checking = true
+			tc.compilation.iteaToUsingCheck[iteaName] = uc
 
 			// Type check the dummy assignment of the 'using' statement, along
 			// with its content, and transform the tree.
@@ -771,6 +774,9 @@ nodesLoop:
 			i += len(nn)
 			tc.withinUsingAffectedStmt = withinStmt
 			tc.compilation.iteaName = backupIteaName
+			uc = tc.compilation.iteaToUsingCheck[iteaName]
+			uc.checking = false
+			tc.compilation.iteaToUsingCheck[iteaName] = uc
 
 			continue nodesLoop
 
